@@ -39,7 +39,10 @@ def stepL (c : CS) (l : Line) : CS :=
       let h := hierOf (l.nat "hier")
       if l.nat "rc" ≠ 0 then branch c s!"primary/{l.str "why"}/refused={l.nat "rc"}" else
       let pub := l.bytes "pub"; let name := l.bytes "name"
-      let sym : Bool := (rdBE pub 0 2) == some 0x0008 || (rdBE pub 0 2) == some 0x0025
+      -- a symmetric PRIMARY of the endorsement hierarchy also depends on the proofs (`CryptCreateObject` stirs shProof and ehProof into
+      -- the DRBG before the seedValue is drawn, for `attributes.primary && attributes.epsHierarchy` only); an object derived under a
+      -- derivation parent depends on the parent's key bits, i.e. on the primary seed alone
+      let sym : Bool := ((rdBE pub 0 2) == some 0x0008 || (rdBE pub 0 2) == some 0x0025) && l.str "why" != "derived"
       let key : Objects.Key := keyOf c.st h sym ((be32 (l.nat "t")))
       let c := branch c s!"primary/{l.str "why"}/{hname h}/t={l.nat "t"}"
       -- the Name is the hash of the public area
